@@ -433,19 +433,21 @@ pub fn subject(case: &Case) -> Result<Box<dyn Subject>, String> {
                         // a panic inside the history is C09's business: fall back to the fresh tree
                         return WeightedTreeIndex::new(ws.clone()).map(|d| Box::new($T(d, ws)) as Box<dyn Subject>).map_err(|e| format!("{e:?}"));
                     }
-                    if !t.is_valid() {
-                        // make it sampleable again through an accepted operation
-                        if m.is_empty() {
-                            let _ = t.push(<$W>::MAX / (4 as $W));
-                            m.push(<$W>::MAX / (4 as $W));
-                        } else {
+                    let fix = guarded(std::panic::AssertUnwindSafe(|| {
+                        if !t.is_valid() {
+                            // make it sampleable again through an accepted operation
                             let w = <$W>::MAX / (4 as $W);
-                            if t.update(0, w).is_ok() {
+                            if m.is_empty() {
+                                if t.push(w).is_ok() {
+                                    m.push(w);
+                                }
+                            } else if t.update(0, w).is_ok() {
                                 m[0] = w;
                             }
                         }
-                    }
-                    if !t.is_valid() {
+                        t.is_valid()
+                    }));
+                    if !matches!(fix, Caught::Ok(true)) {
                         return WeightedTreeIndex::new(ws.clone()).map(|d| Box::new($T(d, ws)) as Box<dyn Subject>).map_err(|e| format!("{e:?}"));
                     }
                     Ok(Box::new($T(t, m)) as Box<dyn Subject>)
